@@ -4,6 +4,14 @@ import json, os
 V = os.path.dirname(os.path.dirname(os.path.abspath(__file__)))
 
 CLAIMED = {
+ 'C04': dict(
+  text='Static decision of the structural clauses behind Var copy/assign/clone safety: tag dispatch of copy/free/operator=/clone covers exactly the '
+       'heap-owning tags (read from isPod) with agreeing tag-to-union-member mapping, operator== covers every value-carrying tag, no `const Var&` '
+       'argument (possibly an element/property of *this) is used after *this released or modified its containers (with summaries of the '
+       'Array<Var>/Dic<Var> members it forwards to), clone() detaches before deep-cloning children, copies into the inline string buffer are '
+       'length-guarded. Value fidelity of accessors and numeric equality are not decided.',
+  technique='exhaustive tag-dispatch agreement over the resolved AST, alias-after-invalidate typestate dataflow with interprocedural summaries, dominating-guard bound check',
+  ref='DESIGN.md section 3 C04'),
  'C02': dict(
   text='Static decision of the structural clauses of the finite-map property on every instantiated member of HashMap/HashDic/Set/Map: chain '
        'unlink re-links the successor and decrements the count on all paths, equality is lookup-based (order independent), every table size is '
